@@ -309,9 +309,9 @@ theorem sendStoredLoop_prefix (l : List (Nat × Pkt)) : ∀ c : C, ∃ t, (sendS
     · simp only []
       split
       · split
-        · obtain ⟨t, e⟩ := ih (({ c.setPanic "core.rs:send_stored:publish_send_count+=1" with s := { (c.setPanic "core.rs:send_stored:publish_send_count+=1").s with sendCount := ((c.setPanic "core.rs:send_stored:publish_send_count+=1").s.sendCount + 1) % 65536 } } : C).push (.send p none))
+        · obtain ⟨t, e⟩ := ih (({ c.setPanic "core.rs:send_stored:publish_send_count+=1" with s := { (c.setPanic "core.rs:send_stored:publish_send_count+=1").s with sendCount := ((c.setPanic "core.rs:send_stored:publish_send_count+=1").s.sendCount + 1) % 4294967296 } } : C).push (.send p none))
           exact ⟨Ev.send p none :: t, by rw [e]; simp⟩
-        · obtain ⟨t, e⟩ := ih (({ c with s := { c.s with sendCount := (c.s.sendCount + 1) % 65536 } } : C).push (.send p none))
+        · obtain ⟨t, e⟩ := ih (({ c with s := { c.s with sendCount := (c.s.sendCount + 1) % 4294967296 } } : C).push (.send p none))
           exact ⟨Ev.send p none :: t, by rw [e]; simp⟩
       · obtain ⟨t, e⟩ := ih (c.push (.send p none))
         exact ⟨Ev.send p none :: t, by rw [e]; simp⟩
